@@ -19,7 +19,10 @@ RULE = (
     "certified hull; Platonic/Archimedean/Johnson (and prism/antiprism, (di)pyramid) have equal edges and regular faces; Catalan "
     "solids have an insphere (all face planes equidistant from one point); repository entries with a `source` coincide with the "
     "named family entry (sorted pair-distance multiset after volume normalisation); unknown names/DOIs raise KeyError.  Loader: all "
-    "lookup sequences over {3 known DOIs, 1 unknown} to depth 3 - same list object on repeat, unknown keys not cached.  "
+    "lookup sequences over {3 known DOIs, 1 unknown} to depth 3 - same list object on repeat, unknown keys not cached; histories on "
+    "the shared family objects: interleaved / nested / abandoned iterations, and for every ordered pair of families get_shape(name) in "
+    "the first followed by the same name in the second (KeyError unless it tabulates the name itself), a user-built family reusing a "
+    "stock name.  "
     "non-trivial = every entry (each is a distinct configuration)."
 )
 ASSUMPTIONS = ["the (V,E,F) table of the 31 Platonic/Archimedean/Catalan solids is taken from the literature and written into the check"]
@@ -64,6 +67,14 @@ def cases(tier):
         names = []
     for nm in names:
         out.append({"t": "entry", "family": "science", "name": nm})
+    fams = list(FAMILIES) + ["science"]
+    for cname in fams:
+        out.append({"t": "iter-history", "family": cname})
+    for a in fams:
+        for b in fams:
+            if a != b:
+                out.append({"t": "cross-family", "first": a, "then": b})
+    out.append({"t": "user-family"})
     depth = 3 if tier == "quick" else 4
     for d in range(1, depth + 1):
         for seq in itertools.product(range(4), repeat=d):
@@ -158,6 +169,100 @@ def run_case(case):
                     rep.ok("unknown-name-KeyError")
                 except Exception as ex:
                     rep.violation("tabulated", cname, "get_shape", "wrong-exception:" + type(ex).__name__, case, "get_shape(%r) raised %r instead of KeyError" % (unknown, ex))
+            return rep
+        if t == "iter-history":
+            # histories of iteration operations on the one shared family object: two iterators advanced
+            # alternately, a nested loop, an abandoned partial iteration followed by a full one
+            cname = case["family"]
+            fam = get_family(cname)
+            names = list(fam.names)
+            rep.transitions += 4
+            it1, it2 = iter(fam), iter(fam)
+            got1, got2 = [], []
+            try:
+                for _ in range(len(names)):
+                    got1.append(next(it1)[0])
+                    got2.append(next(it2)[0])
+                ok = got1 == names and got2 == names
+            except StopIteration:
+                ok = False
+            if not ok:
+                rep.violation("tabulated", cname, "__iter__", "interleaved-iterators", case, "two iterators over the same family advanced alternately yield %s... and %s... instead of the names in order" % (got1[:4], got2[:4]))
+            else:
+                rep.ok("interleaved-iterators")
+            outer = 0
+            inner = 0
+            for k1, _ in fam:
+                outer += 1
+                if outer <= 3:
+                    for k2, _ in fam:
+                        inner += 1
+            if outer != len(names) or inner != 3 * len(names):
+                rep.violation("tabulated", cname, "__iter__", "nested-iteration", case, "nested loops over the family: outer loop ran %d times (expected %d), inner %d (expected %d)" % (outer, len(names), inner, 3 * len(names)))
+            else:
+                rep.ok("nested-iteration")
+            itp = iter(fam)
+            next(itp)
+            next(itp)
+            full = [k for k, _ in fam]
+            if full != names:
+                rep.violation("tabulated", cname, "__iter__", "after-partial-iteration", case, "a full iteration after an abandoned partial one yields %d names starting %s" % (len(full), full[:3]))
+            else:
+                rep.ok("after-partial-iteration")
+            if [k for k, _ in fam] != names:
+                rep.violation("tabulated", cname, "__iter__", "second-iteration", case, "a second full iteration differs from the first")
+            else:
+                rep.ok("second-iteration")
+            return rep
+        if t == "cross-family":
+            # lookup histories across families: building a name in one family must not make it known to another
+            A_, B_ = get_family(case["first"]), get_family(case["then"])
+            only_a = [n for n in A_.names if n not in set(B_.names)]
+            bad = []
+            for n in only_a:
+                rep.transitions += 2
+                A_.get_shape(n)
+                try:
+                    B_.get_shape(n)
+                    bad.append(n)
+                except KeyError:
+                    pass
+                except Exception as ex:
+                    bad.append("%s (%s)" % (n, type(ex).__name__))
+            if bad:
+                rep.violation("tabulated", case["then"], "get_shape", "unknown-name-known-after-other-family", case, "after %s.get_shape(name), %s.get_shape(name) no longer raises KeyError for %d names, e.g. %s" % (case["first"], case["then"], len(bad), bad[:3]))
+            else:
+                rep.ok("cross-family-KeyError", max(1, len(only_a)))
+            # names present in both must give each family's own data
+            both = [n for n in A_.names if n in set(B_.names)]
+            for n in both[:20]:
+                va = np.asarray(A_.get_shape(n).vertices)
+                vb = np.asarray(B_.get_shape(n).vertices)
+                wa = np.asarray(A_.data[n]["vertices"], float)
+                wb = np.asarray(B_.data[n]["vertices"], float)
+                if va.shape != wa.shape or vb.shape != wb.shape or not np.allclose(va, wa) or not np.allclose(vb, wb):
+                    rep.violation("tabulated", case["then"], "get_shape", "wrong-family-data", case, "get_shape(%r) does not return this family's own vertices" % n)
+                    break
+            return rep
+        if t == "user-family":
+            from coxeter.families import TabulatedGSDShapeFamily
+
+            FAM.PlatonicFamily.get_shape("Cube")
+            cube2 = [[x, y, z] for x in (0.0, 2.0) for y in (0.0, 2.0) for z in (0.0, 2.0)]
+            uf = TabulatedGSDShapeFamily({"Cube": {"type": "ConvexPolyhedron", "vertices": cube2}, "Mine": {"type": "ConvexPolyhedron", "vertices": cube2}})
+            rep.transitions += 3
+            v = float(uf.get_shape("Cube").volume)
+            if abs(v - 8.0) > 1e-9:
+                rep.violation("tabulated", "TabulatedGSDShapeFamily", "get_shape", "user-family-gets-stock-data", case, "a user family's own 'Cube' (2x2x2) comes back with volume %r" % v)
+            else:
+                rep.ok("user-family-own-data")
+            try:
+                FAM.PlatonicFamily.get_shape("Mine")
+                rep.violation("tabulated", "PlatonicFamily", "get_shape", "unknown-name-known-after-other-family", case, "PlatonicFamily knows 'Mine' after a user family built it")
+            except KeyError:
+                rep.ok("unknown-name-KeyError")
+            if list(uf.names) != ["Cube", "Mine"] or [k for k, _ in uf] != ["Cube", "Mine"]:
+                rep.violation("tabulated", "TabulatedGSDShapeFamily", "__iter__", "order", case, "user family iteration order")
             return rep
         if t == "entry":
             cname, name = case["family"], case["name"]
